@@ -1,0 +1,67 @@
+//go:build verif
+
+package vtrace
+
+import (
+	"bytes"
+	"runtime"
+	"strconv"
+	"sync"
+)
+
+// On reports whether hooks are compiled in.
+const On = true
+
+var (
+	mu      sync.Mutex
+	buffers = map[uint64]*[]Event{}
+)
+
+// goid returns the id of the calling goroutine (parsed from the stack header; only
+// used in verification builds).
+func goid() uint64 {
+	var buf [64]byte
+	n := runtime.Stack(buf[:], false)
+	// "goroutine 123 [running]:"
+	b := buf[:n]
+	b = bytes.TrimPrefix(b, []byte("goroutine "))
+	if i := bytes.IndexByte(b, ' '); i > 0 {
+		b = b[:i]
+	}
+	id, _ := strconv.ParseUint(string(b), 10, 64)
+	return id
+}
+
+// Begin starts recording for the calling goroutine.
+func Begin() {
+	id := goid()
+	evs := make([]Event, 0, 64)
+	mu.Lock()
+	buffers[id] = &evs
+	mu.Unlock()
+}
+
+// End stops recording for the calling goroutine and returns its events.
+func End() []Event {
+	id := goid()
+	mu.Lock()
+	p := buffers[id]
+	delete(buffers, id)
+	mu.Unlock()
+	if p == nil {
+		return nil
+	}
+	return *p
+}
+
+// Emit appends an event to the buffer of the calling goroutine, if it is recording.
+func Emit(name string, kv ...interface{}) {
+	id := goid()
+	mu.Lock()
+	p := buffers[id]
+	mu.Unlock()
+	if p == nil {
+		return
+	}
+	*p = append(*p, Event{Name: name, KV: kv})
+}
